@@ -104,6 +104,7 @@ def versions(history):
     evolutions = {a: [] for a in apps}
     deps = {}
     grown = set()
+    renamed_uids = {}
     out = [{'spec': spec, 'apps': list(apps), 'evolutions': copy.deepcopy(evolutions),
             'deps': {}}]
     for si, st_ in enumerate(history['steps']):
@@ -114,7 +115,11 @@ def versions(history):
             # over the whole history (rows and kinds are looked up by uid)
             for m_ in st_['seq']:
                 if m_['kind'] == 'AddField' and re.match(r'add\d+$', str(m_['field'].get('uid'))):
-                    m_['field']['uid'] = 'h%d_%s' % (si, m_['field']['uid'])
+                    renamed_uids[m_['field']['uid']] = 'h%d_%s' % (si, m_['field']['uid'])
+                    m_['field']['uid'] = renamed_uids[m_['field']['uid']]
+                if m_['kind'] == 'SQLMutation' and m_.get('backfill') and \
+                        m_['backfill']['field'] in renamed_uids:
+                    m_['backfill']['field'] = renamed_uids[m_['backfill']['field']]
             spec = R.apply_all(spec, st_['seq'], strict=True)
             # a linear history: this evolution was written when every other app was at its
             # latest evolution - the developer declares that (AFTER_EVOLUTIONS)
